@@ -131,6 +131,7 @@ func propC14(c *Ctx) {
 			r.violate(Violation{Kind: "property", Class: class, Op: op, Impl: impl, Detail: "exported function must return normally"})
 		}
 	}
+	c.goPrimitives()
 	w := int64(300)
 	if !c.quick {
 		w = 70000
